@@ -58,7 +58,40 @@ def generate(seed, tier, index):
     if isp == "Poisson" and rs.chance(0.35):
         klass = "large"      # the regime where an implementation is tempted to switch to a normal approximation
     spec["state"] = gen_state(rs, m0.ns, m0.nc, klass)
-    near_int = isp in ("auto", "redist") and rs.chance(0.08)
+    scale = None
+    if index % 150 == 31 and isp in ("auto", "redist"):
+        scale = "cells"
+    elif index % 45 == 12 and isp == "Poisson":
+        scale = "giant"
+    if scale == "cells":
+        # more than a thousand cells with the mass concentrated in a few of them: the correction of the redistributed
+        # totals has far to go
+        dims = rs.choice([[16, 16, 4], [12, 10, 10], [1100, 1, 1], [33, 33, 1]])
+        ncb = dims[0] * dims[1] * dims[2]
+        spec["space"] = {"type": "grid", "w": dims[0], "h": dims[1], "d": dims[2], "bc": ["reflecting"] * 3,
+                         "cell_env": [0] * ncb, "vol": (rs.loguniform(0.5, 2.0) * 1e-6) ** 3}
+        spec["envs"] = spec["envs"][:1]
+        for sp_ in spec["species"]:
+            for key in ("D", "dens", "chst"):
+                sp_[key] = sp_[key][:1]
+        for r_ in spec["reactions"]:
+            r_["kf"], r_["kr"] = r_["kf"][:1], r_["kr"][:1]
+        spec["chem"] = None
+        m0 = Model(dict(spec, state=None))
+        stb = [0.0] * (m0.ns * ncb)
+        for s_ in range(m0.ns):
+            for _ in range(rs.randint(1, 3)):
+                stb[s_ * ncb + rs.randint(0, ncb - 1)] = rs.uniform(500.0, 4000.0)
+            for _ in range(rs.randint(0, 30)):
+                stb[s_ * ncb + rs.randint(0, ncb - 1)] += rs.uniform(0.0, 1.0)
+        spec["state"] = stb
+        klass = "thousand_cells_concentrated"
+    elif scale == "giant":
+        # entries of billions of molecules (beyond the 32-bit range) next to ordinary ones: still independent Poisson draws
+        gi = rs.randint(0, m0.ns * m0.nc - 1)
+        spec["state"][gi] = float(int(rs.uniform(2.3e9, 8e9)))
+        klass = "giant_entry"
+    near_int = scale is None and isp in ("auto", "redist") and rs.chance(0.08)
     if near_int:
         # whole numbers everywhere except one entry per species that misses (or exceeds) a whole number by 1e-10 .. 5e-10
         # molecule: the real total is that close to an integer, and its floor is still its floor
@@ -77,14 +110,14 @@ def generate(seed, tier, index):
                 if min(parts, m0.nc) not in (1, 2, 4):
                     st_[s_ * m0.nc] = 1.0
         spec["state"] = st_
-    default_state = (not near_int) and rs.chance(0.1)
+    default_state = (not near_int) and scale is None and rs.chance(0.1)
     if default_state:
         # no explicit state: density x volume, computed by the front end in whatever units the network / species declare
         klass = "default_state"
         spec["state"] = None
     exact_int = (not default_state) and all(v == math.floor(v) for v in spec["state"])
     # exact-integer workloads: state written in molecules so that no unit round trip touches the integers
-    rich = (rs.chance(0.5) or default_state) and not exact_int and not near_int
+    rich = (rs.chance(0.5) or default_state) and not exact_int and not near_int and scale is None
     entry = C.make_script_entry(rs, ru, rk, kind, None, {"steps": (2, 6), "isp": isp, "p_seed": 1.0, "policy": "on_iteration", "tauleap_fractional_none": 1.0},
                                 rich=rich, mild_units=True, spec=spec)
     if default_state and rs.chance(0.6):
@@ -104,6 +137,8 @@ def generate(seed, tier, index):
         # gen_script refused 'none' on a non-integer state for a stochastic engine
         isp = entry["phys"]["sp"]["isp"]
     K = 200 if isp == "Poisson" else rf.randint(8, 40)
+    if scale == "cells":
+        K = rf.randint(3, 6)
     if isp == "Poisson" and klass == "large":
         K = 500
     if tier == "thorough" and isp == "Poisson":
